@@ -144,6 +144,56 @@ def parse_kani_output(text):
     return res
 
 
+def concrete_playback(tmp, env, base, h, workdir):
+    """The harness failed: ask Kani for the counterexample as a unit test (values of every kani::any()), add it next to the harness in the
+    scratch copy and run it natively (`cargo kani playback`): the real code, compiled by rustc, on the counterexample.  Kani's stubs are not
+    active in a native run, so a counterexample that depends on a stub's nondeterministic answer may not reproduce; that is reported as such."""
+    out = dict(failing_input=None, replay_test=None, replay_result=None)
+    full = '%s::verif_kani::%s' % (h['module'], h['name'])
+    c = base + ['-Z', 'concrete-playback', '--concrete-playback=print', '--harness-timeout', '%ds' % h['timeout'], '--harness', full]
+    try:
+        p = subprocess.run(c, cwd=tmp, env=env, stdout=subprocess.PIPE, stderr=subprocess.STDOUT, text=True, timeout=h['timeout'] + 300)
+    except subprocess.TimeoutExpired:
+        out['replay_result'] = 'counterexample extraction timed out'
+        return out
+    # Kani prints the test between ``` fences; its doc comment repeats the (possibly multi-line) assertion text, so only the code is kept
+    m = re.search(r'(#\[test\]\s*fn (kani_concrete_playback_%s_\d+)\(\) \{.*?\n\}\n)' % re.escape(h['name']), p.stdout, re.S)
+    if not m:
+        out['replay_result'] = 'Kani produced no concrete counterexample for this failure'
+        return out
+    src = os.path.join(tmp, h['crate'], 'src', h['module'].split('::')[-1] + '.rs')
+    text = open(src).read().rstrip()
+    if not text.endswith('}'):
+        out['replay_result'] = 'could not place the generated test next to the harness'
+        return out
+    with open(src, 'w') as f:
+        f.write(text[:-1] + '\n' + m.group(1) + '}\n')
+    test_src, test_name = m.group(1), m.group(2)
+    out['replay_test'] = test_src
+    vals = re.search(r'let concrete_vals: Vec<Vec<u8>> = vec!\[(.*?)\];', test_src, re.S)
+    out['failing_input'] = 'values of the kani::any() calls of harness %s, in call order (comment = decoded value):\n%s' % (
+        h['name'], vals.group(1).strip() if vals else '?')
+    try:
+        q = subprocess.run(['cargo', 'kani', 'playback', '-Z', 'concrete-playback', '-p', h['crate'], '--', test_name], cwd=tmp, env=env,
+                           stdout=subprocess.PIPE, stderr=subprocess.STDOUT, text=True, timeout=1200)
+        txt = q.stdout
+    except subprocess.TimeoutExpired:
+        out['replay_result'] = 'native replay timed out'
+        return out
+    os.makedirs(workdir, exist_ok=True)
+    with open(os.path.join(workdir, 'playback_%s.txt' % h['name']), 'w') as f:
+        f.write(txt)
+    pan = re.search(r"panicked at ([^\n]*)\n([^\n]*)", txt)
+    if 'test result: FAILED' in txt and pan:
+        out['replay_result'] = 'REPRODUCED on the real code (native run of the counterexample): panicked at %s: %s' % (pan.group(1).strip(), pan.group(2).strip())
+        out['reproduced'] = True
+    elif 'test result: ok' in txt:
+        out['replay_result'] = 'not reproduced natively (the counterexample depends on a stubbed callee: Kani stubs are inactive in a native run)'
+    else:
+        out['replay_result'] = 'native replay inconclusive: ' + ' '.join(txt.split('\n')[-6:])[:400]
+    return out
+
+
 def run_unit(u, tier, workdir, prop=None):
     t0 = time.time()
     unit = HARNESSES[u['name']]
@@ -241,6 +291,20 @@ def run_unit(u, tier, workdir, prop=None):
                     kind='kani_check_failed', message=desc, fn='verif_kani::' + h['name'], props=h['props'],
                     obligation='%s:%s:%s@%s' % (u['name'], h['name'], re.sub(r'[^A-Za-z0-9_ .<>=!+*/&|-]+', '', desc)[:80], site),
                     repo_site=loc, rendered='Check %s\n - Description: %s\n - Location: %s\n' % (c.get('id'), desc, loc)))
+        # counterexamples: one native replay per failed harness
+        if res['failures'] and not os.environ.get('VERIF_NO_PLAYBACK'):
+            by_h = {}
+            for f in res['failures']:
+                by_h.setdefault(f['fn'].split('::')[-1], []).append(f)
+            for h in hs:
+                if h['name'] in by_h:
+                    pb_res = concrete_playback(tmp, env, base, h, workdir)
+                    for f in by_h[h['name']]:
+                        f['replay_test'] = pb_res.get('replay_test')
+                        f['replay_result'] = pb_res.get('replay_result')
+                        f['counterexample'] = pb_res.get('failing_input')
+                        if pb_res.get('reproduced'):
+                            f['failing_input'] = pb_res.get('failing_input')
         # de-duplicate
         seen, uniq = set(), []
         for f in res['failures']:
